@@ -12,8 +12,10 @@ else
   RC_WITH=NA
 fi
 # our check on the changed tree
-cd /verif && YQV_REPO=$WT ./check $PROP > /tmp/check_$PROP_$M.txt 2>&1; RC_CHECK=$?
-grep -E "^(VIOLATION|UNDECIDED|KNOWN-FINDING|property|obligation failed)" /tmp/check_$PROP_$M.txt | cut -c1-300 > $OUT/check_output.txt
+S=/var/tmp/yq-seed-$$; rm -rf $S; mkdir -p $S; rsync -a --exclude target --exclude .git /repo/ $S/; (cd $S && git apply $WT/out/$M/patch.diff) || echo "patch does not apply to /repo HEAD"
+cd /verif && YQV_REPO=$S ./check $PROP > /tmp/check_x.txt 2>&1; RC_CHECK=$?
+rm -rf $S
+grep -E "^(VIOLATION|UNDECIDED|KNOWN-FINDING|property|obligation failed)" /tmp/check_x.txt | cut -c1-300 > $OUT/check_output.txt
 cd $WT && git checkout -q -- .
 if [ -d out/$M/demo ]; then
   (cd out/$M/demo && timeout 600 cargo run --offline >/tmp/demo_without.txt 2>&1); RC_WITHOUT=$?
